@@ -1047,21 +1047,122 @@ func (p *Prog) modCallees(ci ssa.CallInstruction) []*ssa.Function {
 	return out
 }
 
-// textWriteSite is a direct call of a text-write primitive, classified by what it writes.
+// textWriteSite is a call of a text-write primitive, classified by what it writes. When the primitive is called from a
+// helper that receives the bytes as a parameter, the site is the helper's call site in each caller (Via = the helper).
 type textWriteSite struct {
-	Fn   *ssa.Function
-	Call ssa.CallInstruction
-	Kind string // "install" (jump bytes), "restore" (origin bytes), "other"
-	Addr []Atom
-	Data []Atom
+	Fn       *ssa.Function
+	Call     ssa.CallInstruction
+	Kind     string // "install" (jump bytes), "restore" (origin bytes), "other"
+	Addr     []Atom
+	Data     []Atom
+	AddrV    ssa.Value // address operand in Fn's terms (nil if not expressible)
+	DataV    ssa.Value
+	AddrBase ssa.Value     // object whose field the address is (in Fn's terms), if any
+	DataBase ssa.Value     // object whose field the data is
+	Via      *ssa.Function // helper containing the primitive call, when lifted
+	Raw      ssa.CallInstruction
 }
 
-// textWriteSites lists every direct call to memory.WriteTo* in the module.
+func (p *Prog) classifyWrite(s *textWriteSite) {
+	pr := p.patchRoles()
+	s.Kind = "other"
+	for _, a := range s.Data {
+		if a.Kind != "field" {
+			continue
+		}
+		if b, fv, ok := fieldRef(a.V); ok && fv != nil {
+			if fv == pr.GInstall || fv == pr.PInstall {
+				s.Kind = "install"
+				s.DataBase = resolveLocal(b)
+			}
+			if fv == pr.GRestore || fv == pr.PRestore {
+				s.Kind = "restore"
+				s.DataBase = resolveLocal(b)
+			}
+		}
+	}
+}
+
+// textWriteSites lists every call to memory.WriteTo* in the module (lifted through byte-parameter helpers).
 func (p *Prog) textWriteSites() []textWriteSite {
+	if p.tws != nil {
+		return p.tws
+	}
 	var out []textWriteSite
 	var names []string
 	for _, w := range p.textWriters() {
 		names = append(names, w.Object().(*types.Func).FullName())
+	}
+	paramIdx := func(f *ssa.Function, v ssa.Value) int {
+		if pr, ok := resolveLocal(v).(*ssa.Parameter); ok && pr.Parent() == f {
+			for k, q := range f.Params {
+				if q == pr {
+					return k
+				}
+			}
+		}
+		return -1
+	}
+	var lift func(s textWriteSite, depth int) []textWriteSite
+	lift = func(s textWriteSite, depth int) []textWriteSite {
+		di := -1
+		if s.DataV != nil {
+			di = paramIdx(s.Fn, s.DataV)
+		}
+		if s.Kind != "other" || di < 0 || depth == 0 || relPkg(s.Fn) != "internal/patch" {
+			return []textWriteSite{s}
+		}
+		callers := p.callersOf(s.Fn)
+		if len(callers) == 0 {
+			return []textWriteSite{s}
+		}
+		var ls []textWriteSite
+		anyClassified := false
+		for _, cs := range callers {
+			args := cs.Instr.Common().Args
+			n := textWriteSite{Fn: cs.Caller, Call: cs.Instr, Via: s.Fn, Raw: s.Raw}
+			if s.Via != nil {
+				n.Via = s.Via
+			}
+			if di < len(args) {
+				n.DataV = args[di]
+				n.Data = origins(n.DataV)
+			}
+			if ai := paramIdx(s.Fn, s.AddrV); s.AddrV != nil && ai >= 0 && ai < len(args) {
+				n.AddrV = args[ai]
+				n.Addr = origins(n.AddrV)
+			} else {
+				n.Addr = s.Addr
+				if bi := paramIdx(s.Fn, s.AddrBase); s.AddrBase != nil && bi >= 0 && bi < len(args) {
+					n.AddrBase = resolveLocal(args[bi])
+				}
+			}
+			if n.AddrV != nil {
+				for _, a := range n.Addr {
+					if b, _, ok := fieldRef(a.V); ok {
+						n.AddrBase = resolveLocal(b)
+					}
+				}
+			}
+			p.classifyWrite(&n)
+			if n.Kind != "other" {
+				anyClassified = true
+			}
+			ls = append(ls, lift(n, depth-1)...)
+		}
+		if !anyClassified {
+			// lifting did not reveal what is written: keep the primitive's own site (the callers are covered by reachability)
+			stay := true
+			for _, l := range ls {
+				if l.Kind != "other" {
+					stay = false
+				}
+			}
+			if stay {
+				return []textWriteSite{s}
+			}
+		}
+		return ls
 	}
 	for _, f := range p.Funcs {
 		if relPkg(f) == "internal/bytecode/memory" {
@@ -1070,24 +1171,17 @@ func (p *Prog) textWriteSites() []textWriteSite {
 		for _, cs := range callsTo(f, names...) {
 			ci := cs.(ssa.CallInstruction)
 			args := ci.Common().Args
-			s := textWriteSite{Fn: f, Call: ci, Kind: "other", Addr: origins(args[0]), Data: origins(args[1])}
-			pr := p.patchRoles()
-			for _, a := range s.Data {
-				if a.Kind != "field" {
-					continue
-				}
-				if _, fv, ok := fieldRef(a.V); ok && fv != nil {
-					if fv == pr.GInstall || fv == pr.PInstall {
-						s.Kind = "install"
-					}
-					if fv == pr.GRestore || fv == pr.PRestore {
-						s.Kind = "restore"
-					}
+			s := textWriteSite{Fn: f, Call: ci, Raw: ci, Addr: origins(args[0]), Data: origins(args[1]), AddrV: args[0], DataV: args[1]}
+			for _, a := range s.Addr {
+				if b, _, ok := fieldRef(a.V); ok {
+					s.AddrBase = resolveLocal(b)
 				}
 			}
-			out = append(out, s)
+			p.classifyWrite(&s)
+			out = append(out, lift(s, 3)...)
 		}
 	}
+	p.tws = out
 	return out
 }
 
@@ -1199,7 +1293,10 @@ func allocPartsDepend(a *ssa.Alloc, walk func(ssa.Value) bool) bool {
 
 // originsDeep is origins that looks through static calls of module functions: a call atom is replaced by the origins of
 // the callee's corresponding result, and the callee's parameters are bound to the call's arguments (depth-bounded).
-func originsDeep(v ssa.Value, depth int) []Atom {
+func originsDeep(v ssa.Value, depth int) []Atom { return originsDeepIn(v, depth, nil) }
+
+// originsDeepIn expands only callees accepted by into (nil = every module function).
+func originsDeepIn(v ssa.Value, depth int, into func(*ssa.Function) bool) []Atom {
 	var out []Atom
 	for _, a := range origins(v) {
 		if depth <= 0 {
@@ -1221,7 +1318,7 @@ func originsDeep(v ssa.Value, depth int) []Atom {
 			continue
 		}
 		cal := staticCallee(call.Common())
-		if cal == nil || cal.Blocks == nil || !strings.HasPrefix(pkgPathOf(cal), Mod) || relPkg(cal) == "internal/logger" {
+		if cal == nil || cal.Blocks == nil || !strings.HasPrefix(pkgPathOf(cal), Mod) || relPkg(cal) == "internal/logger" || (into != nil && !into(cal)) {
 			out = append(out, a)
 			continue
 		}
@@ -1231,13 +1328,13 @@ func originsDeep(v ssa.Value, depth int) []Atom {
 			if rv == nil {
 				continue
 			}
-			for _, b := range originsDeep(rv, depth-1) {
+			for _, b := range originsDeepIn(rv, depth-1, into) {
 				expanded = true
 				if b.Kind == "param" {
 					if pr, ok := b.V.(*ssa.Parameter); ok && pr.Parent() == cal {
 						for k, q := range cal.Params {
 							if q == pr && k < len(call.Call.Args) {
-								out = append(out, originsDeep(call.Call.Args[k], depth-1)...)
+								out = append(out, originsDeepIn(call.Call.Args[k], depth-1, into)...)
 							}
 						}
 						continue
